@@ -49,6 +49,10 @@ type BatchCase struct {
 	Stream    string  `json:"streamname"`
 	Rename    string  `json:"rename"`
 	Schedules [][]int `json:"schedules"`
+	// Piecewise[p]: a where node that passes everything sits between the p-th query and the
+	// join/union, so that the parent's batches arrive as separate begin / point / end messages
+	// (with size hint 0) and are put together again by the consumer's batch buffer
+	Piecewise []bool `json:"piecewise,omitempty"`
 }
 
 const batchPeriod = 10
@@ -115,6 +119,11 @@ func genBatch(t *rapid.T, r *kit.Rec) BatchCase {
 		lens[p] = len(c.Parents[p])
 	}
 	c.Schedules = genSchedules(t, lens)
+	if rapid.IntRange(0, 2).Draw(t, "piecewise") == 0 {
+		for p := 0; p < np; p++ {
+			c.Piecewise = append(c.Piecewise, rapid.IntRange(0, 2).Draw(t, "pw") > 0)
+		}
+	}
 	return c
 }
 
@@ -271,6 +280,9 @@ func (c BatchCase) script() string {
 			s.WriteString(".groupBy('dc')")
 		case c.GroupBy:
 			s.WriteString(".groupBy('host')")
+		}
+		if p < len(c.Piecewise) && c.Piecewise[p] {
+			s.WriteString("|where(lambda: \"v\" >= -1)")
 		}
 		s.WriteString("\n")
 	}
@@ -577,6 +589,12 @@ func runBatch(c BatchCase, cc *kit.Case) {
 		}
 	}
 	cc.Label(fmt.Sprintf("%d-parents", len(c.Parents)))
+	for _, pw := range c.Piecewise {
+		if pw {
+			cc.Label("piecewise-parent")
+			break
+		}
+	}
 	if c.GroupBy {
 		cc.Label("groupby")
 	}
